@@ -384,7 +384,7 @@ class DiskFile(VirtualFileContainer):
 
         :return: the first directory entry number not in use, otherwise -1 if all used
         """
-        for entry_number in range(0, 71):
+        for entry_number in range(0, 72):
             if not self.directory_entry_in_use(entry_number):
                 return entry_number
         return -1
